@@ -229,10 +229,10 @@ func genHooks(rng *rand.Rand) []*release.Hook {
 }
 
 func genManifest(rng *rand.Rand) string {
-	switch rng.Intn(40) {
+	switch rng.Intn(genManifestDie) {
 	case 0:
 		// multi-MB, highly compressible
-		return strings.Repeat("# filler line käse 日本語 ------------------------------------------------\n", 30000+rng.Intn(20000))
+		return strings.Repeat("# filler line käse 日本語 ------------------------------------------------\n", 12000+rng.Intn(20000))
 	case 1:
 		return ""
 	case 2, 3:
@@ -350,3 +350,5 @@ func nameShape(n string) string {
 	}
 	return s
 }
+
+var genManifestDie = 60
